@@ -21,7 +21,8 @@ pred stepOK(flow []FlowNode, k int) := runIdx[k] < runIdx[k + 1] && (runResult[k
 func (p *Pipeline) doHandle(ctx *context.Context, flow []FlowNode, stats []FilterStat) (result string, outStats []FilterStat, sawEnd bool)
   requires ctx != nil
   requires filters-bound: forall j int :: 0 <= j && j < len(flow) && !isEnd(flow, j) ==> flow[j].filter != nil
-  modifies runLen, runFilter, runNS, runResult, runIdx, ctx.activeNs
+  modifies runLen, runFilter, runNS, runResult, runIdx, ctx.activeNs, elems(stats)
+  ensures stats-backing: ref(outStats) == ref(stats) || fresh(outStats)
   ensures log-grows: runLen >= old(runLen)
   ensures log-prefix-kept: forall k int :: k < old(runLen) ==> runFilter[k] == old(runFilter[k]) && runNS[k] == old(runNS[k]) && runResult[k] == old(runResult[k]) && runIdx[k] == old(runIdx[k])
   ensures each-run-is-a-flow-node-in-its-namespace: forall k int :: old(runLen) <= k && k < runLen ==> ranNode(flow, k)
@@ -33,6 +34,7 @@ func (p *Pipeline) doHandle(ctx *context.Context, flow []FlowNode, stats []Filte
   ensures ends-at-end-node-or-flow-end: runLen > old(runLen) && result == "" ==> (sawEnd ? (runIdx[runLen - 1] + 1 < len(flow) && isEnd(flow, runIdx[runLen - 1] + 1)) : runIdx[runLen - 1] + 1 == len(flow))
   ensures pending-jump-found-nothing-or-end: runLen > old(runLen) && result != "" && jumpOf(flow, runIdx[runLen - 1], result) != "" && jumpOf(flow, runIdx[runLen - 1], result) != "END" ==> (sawEnd ? (exists j int :: runIdx[runLen - 1] < j && j < len(flow) && isEnd(flow, j) && aliasOf(flow, j) == jumpOf(flow, runIdx[runLen - 1], result) && (forall m int :: runIdx[runLen - 1] < m && m < j ==> aliasOf(flow, m) != jumpOf(flow, runIdx[runLen - 1], result))) : (forall j int :: runIdx[runLen - 1] < j && j < len(flow) ==> aliasOf(flow, j) != jumpOf(flow, runIdx[runLen - 1], result)))
   invariant[1] log: runLen >= old(runLen) && !sawEnd && ctx != nil
+  invariant[1] stats-backing: ref(stats) == old(ref(stats)) || fresh(stats)
   invariant[1] prefix: forall k int :: k < old(runLen) ==> runFilter[k] == old(runFilter[k]) && runNS[k] == old(runNS[k]) && runResult[k] == old(runResult[k]) && runIdx[k] == old(runIdx[k])
   invariant[1] ran: forall k int :: old(runLen) <= k && k < runLen ==> ranNode(flow, k) && runIdx[k] < i
   invariant[1] steps: forall k int :: old(runLen) <= k && k + 1 < runLen ==> stepOK(flow, k)
